@@ -1,6 +1,7 @@
 package main
 
 import (
+	vsync "github.com/rminnich/go9p/vs/vsync"
 	"bytes"
 	"fmt"
 	"strings"
@@ -245,14 +246,23 @@ func c09TagScenario(n int, dotu bool, P int) Scenario {
 }
 
 // many sequential calls over one connection: tags and request slots are recycled
-func c09RecycleScenario(n int) Scenario {
-	return Scenario{Name: fmt.Sprintf("recycle %d sequential calls", n), Run: func(rc *RunCtx) *Result {
+func c09RecycleScenario(n int, poolForgets bool) Scenario {
+	name := fmt.Sprintf("recycle %d sequential calls", n)
+	if poolForgets {
+		// sync.Pool may drop idle items at any time: the client must not lose tags or slots with them
+		name += " (every sync.Pool forgets what is put back)"
+	}
+	return Scenario{Name: name, Run: func(rc *RunCtx) *Result {
 		res := &Result{Exhaustive: true}
 		var bad string
 		tags := map[uint16]bool{}
+		done := 0
 		body := func() {
+			vsync.PoolForgets = poolForgets
+			defer func() { vsync.PoolForgets = false }()
 			c, peer := newClientPair(8192, true)
 			for i := 0; i < n; i++ {
+				done = i
 				sp := callSpec{Kind: []string{"read", "stat", "write", "walk", "clunk"}[i%5], Fid: uint32(i % 50000)}
 				r := doCall(c, sp)
 				if msg := r.verify("ok", true, nil); msg != "" {
@@ -279,8 +289,12 @@ func c09RecycleScenario(n int) Scenario {
 		if len(x.Panics) > 0 {
 			bad = "panic: " + x.Panics[0].Value
 		}
+		vsync.PoolForgets = false
 		if x.HitHorizon {
 			bad = "did not finish"
+		}
+		if bad == "" && done != n-1 {
+			bad = fmt.Sprintf("call number %d never returned: tags or request slots are not recycled (parked: %v)", done+1, x.Parked)
 		}
 		if bad != "" {
 			res.Findings = append(res.Findings, Finding{Sig: "C09/recycling/" + sigWords(bad), Msg: bad})
@@ -377,11 +391,11 @@ func c09Scenarios(tier string) []Scenario {
 	out = append(out, c09TagScenario(2, true, P), c09TagScenario(3, false, 2))
 	// more completions than the Tag's channels hold (16 + the consumer's 8): the reader has to wait for the late consumer
 	out = append(out, c09TagScenario(30, true, 1), c09TagScenario(40, false, 1))
-	n := 3000
+	n := 70000 // more than the 65535 tags there are
 	if tier == "thorough" {
 		n = 70000
 	}
-	out = append(out, c09RecycleScenario(n))
+	out = append(out, c09RecycleScenario(n, false), c09RecycleScenario(n, true))
 	out = append(out, c09HeldScenario(64, 60, false), c09HeldScenario(128, 80, true), c09HeldScenario(8192, 2200, true))
 	return out
 }
